@@ -28,6 +28,26 @@ CHECKS["C30"] = (
     "DESIGN.md §6 C30",
 )
 
+CHECKS["C33"] = (
+    "Lean 4 theorems for every violation list: after de-duplication by source signature and the stable sort, signatures are "
+    "pairwise distinct, the list is ordered by (line, column), every input signature survives and nothing is invented; the "
+    "serialised records are a sorted permutation. Tied to deduplicate_in_source_space / LintedDir.add by correspondence on stub "
+    "violations and on real multi-variant jinja lints, with signatures recomputed independently by the harness.",
+    "Lean 4 proof (Pairwise/Perm over stable mergeSort) + differential correspondence",
+    "Lean kernel; standard axioms; sorted() stability; 'distinct' = the code's source signature (DESIGN §10)",
+    "DESIGN.md §6 C33",
+)
+CHECKS["C20"] = (
+    "Lean 4 theorems for every directive list and violation list: the visible violations are exactly those not hidden (plain "
+    "directive on the same line naming the rule or none; or last covering range directive at or before the line is a disable, "
+    "proved to be a latest one), masking is pointwise, plain directives are marked used only if they hid something, unmatched "
+    "references stay literal. The comment parser, glob matcher and mask are tied to noqa.py by exhaustive small-scope + random "
+    "correspondence; the Lean `hidden` predicate is evaluated on real directives/violations of generated files (incl. unparsable).",
+    "Lean 4 proof (filter algebra + state-machine invariant) + exhaustive small-scope differential correspondence",
+    "Lean kernel; standard axioms; fnmatch modelled for the metacharacter subset; used-flags of enable/disable directives tied by correspondence only",
+    "DESIGN.md §6 C20",
+)
+
 NOT_YET = {}
 
 
